@@ -136,7 +136,13 @@ def run(ctx):
     specs += [gen_lp(rng, i) for i in range(nl)]
     solvers = [{}]
     if ctx.tier == 'thorough':
-        solvers = [{}, {'solver': 'SCIPY'}, {'solver': 'CLARABEL'}, {'solver': 'SCIP'}, {'interface': 'ortools'}]
+        # "all solver choices available in the installation"
+        import importlib.util
+        solvers = [{}, {'solver': 'SCIPY'}, {'solver': 'CLARABEL'}, {'solver': 'SCIP'}]
+        if importlib.util.find_spec('ortools') is not None:
+            solvers.append({'interface': 'ortools'})
+        else:
+            ctx.count('interface ortools: package not installed here (not exercised)')
     for sp in specs:
         sp['opts']['solvers'] = solvers
     for sp in specs[1::4]:
@@ -194,6 +200,7 @@ def run(ctx):
                 ctx.violation('validator-rejected', {'spec': sp, 'mode': 'split', 'expected': nm, 'theorem_or_correspondence': 'Cert.' + ['check_primal_eps', 'value', 'check_opt', 'bools'][k]},
                               trigger={'what': 'split: ' + nm})
     exprs, owners = [], []
+    ref_val = {}
     fexprs, fowners = [], []
     texprs, towners = [], []
     res_of = {}
@@ -239,7 +246,14 @@ def run(ctx):
             if r['solve'] == 'optimal':
                 scale = 1 + abs(r['value']) + max([abs(v) for v in prob['b']] + [0])
                 eps = 2e-6 * scale
-                if r.get('duals') and (not ismip or r['kw'].get('make_soft_problem')) and not openended and not r['kw'].get('robust'):
+                other = bool(r['kw'].get('solver') or r['kw'].get('interface'))
+                if other and ref_val.get(id(prob)) is not None and r['value'] < ref_val[id(prob)] - 2e-6 * scale:
+                    # (the default solver's point is the witness: feasible - checked below - and better)
+                    ctx.violation('impl-violation', {'spec': sp, 'run': r['kw'], 'observed': {'value': r['value'], 'value of the default solver on the same problem': ref_val[id(prob)]},
+                                                     'expected': 'no feasible point has a better value'}, trigger={'what': 'worse than the default solver'})
+                if not other and not r['kw']:
+                    ref_val[id(prob)] = r['value']
+                if r.get('duals') and (not ismip or r['kw'].get('make_soft_problem')) and not openended and not r['kw'].get('robust') and not other:
                     y = duals_to_y(prob, r['duals'])
                     have_y = True
                 else:
@@ -261,6 +275,10 @@ def run(ctx):
                                   trigger={'what': 'failure-on-feasible'})
                 else:
                     ctx.count('mip failure without LP certificate (not decided)')
+            elif r['solve'] == 'crash' and (r['kw'].get('solver') or r['kw'].get('interface')) and r.get('where') == 'third-party':
+                # an exception from inside cvxpy / the chosen solver's interface (solver not MIP-capable, open-ended bounds not accepted,
+                # interface errors): neither success nor failure is reported, the property makes no claim
+                ctx.count('chosen solver raised inside cvxpy / its interface (no claim): %s' % str(r['kw']))
             elif r['solve'] == 'crash':
                 ctx.violation('impl-violation', {'spec': sp, 'run': r['kw'], 'observed': r.get('error'),
                                                  'expected': 'optimize() returns Results or a status'},
